@@ -17,37 +17,37 @@ Proof. intros e. cbn [ra ws app]. reflexivity. Qed.
 
 (* _wrap_paren on an expression that sits in its store puts the parentheses right around it *)
 Lemma wrap_paren_st_spec : forall a e b,
-  wrap_paren_st (a ++ re e ++ b) (length a) e = (a ++ ra (wrap_paren e) ++ b, wrap_paren e).
+  wrap_paren_st true (a ++ re e ++ b) (length a) e = Ok (a ++ ra (wrap_paren e) ++ b, wrap_paren e).
 Proof.
   intros a e b. unfold wrap_paren_st, wrap_paren. rewrite re_paren.
   rewrite (insert_at_app a (re e ++ b) [TLp] (length a) eq_refl).
   replace (a ++ [TLp] ++ re e ++ b) with ((a ++ [TLp] ++ re e) ++ b)
     by (rewrite <- !app_assoc; reflexivity).
   rewrite insert_at_app by (rewrite !app_length; cbn [length]; lia).
-  f_equal. rewrite <- !app_assoc. cbn [app]. rewrite <- app_assoc. reflexivity.
+  f_equal. f_equal. rewrite <- !app_assoc. cbn [app]. rewrite <- app_assoc. reflexivity.
 Qed.
 
 Lemma as_mul_st_spec : forall a e b,
-  as_mul_st (a ++ re e ++ b) (length a) e = (a ++ rm (as_mul_expr e) ++ b, as_mul_expr e).
+  as_mul_st true (a ++ re e ++ b) (length a) e = Ok (a ++ rm (as_mul_expr e) ++ b, as_mul_expr e).
 Proof.
   intros a e b. destruct e as [m|e' g1 m' g2 m]; unfold as_mul_st, as_mul_expr; cbn [add_has_ops negb]; [reflexivity|].
   rewrite wrap_paren_st_spec. reflexivity.
 Qed.
 
 Lemma as_atom_st_spec : forall a e b,
-  as_atom_st (a ++ re e ++ b) (length a) e = (a ++ ra (as_atom_expr e) ++ b, as_atom_expr e).
+  as_atom_st true (a ++ re e ++ b) (length a) e = Ok (a ++ ra (as_atom_expr e) ++ b, as_atom_expr e).
 Proof.
   intros a e b. destruct e as [[x|m g1 d g2 x]|e' g1 m' g2 m]; unfold as_atom_st, as_atom_expr;
     cbn [add_has_ops mul_has_ops negb]; [reflexivity| |]; apply wrap_paren_st_spec.
 Qed.
 
 (* on the deep copy (alone in its store) *)
-Lemma as_mul_st_copy : forall e, as_mul_st (re e) 0 e = (rm (as_mul_expr e), as_mul_expr e).
+Lemma as_mul_st_copy : forall e, as_mul_st true (re e) 0 e = Ok (rm (as_mul_expr e), as_mul_expr e).
 Proof.
   intros e. pose proof (as_mul_st_spec [] e []) as H. cbn [app length] in H. rewrite !app_nil_r in H. exact H.
 Qed.
 
-Lemma as_atom_st_copy : forall e, as_atom_st (re e) 0 e = (ra (as_atom_expr e), as_atom_expr e).
+Lemma as_atom_st_copy : forall e, as_atom_st true (re e) 0 e = Ok (ra (as_atom_expr e), as_atom_expr e).
 Proof.
   intros e. pose proof (as_atom_st_spec [] e []) as H. cbn [app length] in H. rewrite !app_nil_r in H. exact H.
 Qed.
@@ -82,8 +82,16 @@ Proof.
   rewrite as_atom_st_copy, detach_st_whole. destruct (s_owns self); reflexivity.
 Qed.
 
-Lemma as_mul_st_no_ops : forall s f e, add_has_ops e = false -> fst (as_mul_st s f e) = s.
-Proof. intros s f [m|] H; [reflexivity|discriminate H]. Qed.
+(* through a store that is not the one the tokens are in, _as_mul_expr either needs no parentheses or refuses *)
+Lemma as_mul_st_foreign : forall s f e,
+  as_mul_st false s f e = if add_has_ops e then Err ValueError else Ok (s, as_mul_expr e).
+Proof. intros s f [m|e' g1 b g2 m]; reflexivity. Qed.
+
+Lemma as_mul_st_own_ok : forall s f e, exists s1 sm, as_mul_st true s f e = Ok (s1, sm).
+Proof. intros s f [m|e' g1 b g2 m]; cbn; eauto. Qed.
+
+Lemma as_mul_st_no_ops : forall o s f e, add_has_ops e = false -> as_mul_st o s f e = Ok (s, as_mul_expr e).
+Proof. intros o s f [m|] H; [reflexivity|discriminate H]. Qed.
 
 Lemma after_wrap_owns : forall self, s_owns (after_wrap self) = s_owns self.
 Proof. intros [f t o]. unfold after_wrap. cbn [s_tree s_first s_owns]. destruct (add_has_ops t); reflexivity. Qed.
@@ -103,44 +111,75 @@ Proof.
     injection H as <- <- _. split; reflexivity.
 Qed.
 
-(* *= / /= : every store, every right operand, every left operand that is in its own store (or needs no parentheses) *)
-Theorem imuldiv_refused_atomic : forall s self other div s' self' e,
+(* *= / /= as found: every store, every right operand, every left operand that is in its own store (or needs no
+   parentheses) *)
+Theorem asfound_imuldiv_refused_atomic : forall s self other div s' self' e,
   s_owns self = true \/ add_has_ops (s_tree self) = false ->
-  s_imuldiv VCode s self other div = (s', self', Err e) -> s' = s /\ self' = self.
+  s_imuldiv VAsFound s self other div = (s', self', Err e) -> s' = s /\ self' = self.
 Proof.
   intros s self [|x] div s' self' e Hself H.
   - cbn [s_imuldiv deepcopy_obj] in H. injection H as <- <- _. split; reflexivity.
-  - cbn [s_imuldiv deepcopy_obj] in H.
-    destruct (as_mul_st s (s_first self) (s_tree self)) as [s1 sm] eqn:E.
+  - cbn [s_imuldiv deepcopy_obj self_through_own] in H.
+    destruct (as_mul_st true s (s_first self) (s_tree self)) as [[s1 sm]|e0] eqn:E.
+    2:{ injection H as <- <- _. split; reflexivity. }
     rewrite s_imuldiv_tail_live, after_wrap_owns in H.
     destruct (s_owns self) eqn:O; [discriminate H|].
     destruct Hself as [Hown|Hops]; [discriminate Hown|].
-    pose proof (as_mul_st_no_ops s (s_first self) (s_tree self) Hops) as F. rewrite E in F. cbn [fst] in F.
+    rewrite (as_mul_st_no_ops true s (s_first self) (s_tree self) Hops) in E. injection E as <- _.
     rewrite (after_wrap_no_ops self Hops) in H.
-    injection H as <- <- _. split; [exact F|reflexivity].
+    injection H as <- <- _. split; reflexivity.
+Qed.
+
+(* *= / /= (the code, _wrap_paren through the expression's own store): every store, every right operand, EVERY left
+   operand - a spent one is refused by the first insert of _wrap_paren, or needs no parentheses and is refused by the
+   splice with nothing written *)
+Theorem imuldiv_refused_atomic : forall s self other div s' self' e,
+  s_imuldiv VCode s self other div = (s', self', Err e) -> s' = s /\ self' = self.
+Proof.
+  intros s self [|x] div s' self' e H.
+  - cbn [s_imuldiv deepcopy_obj] in H. injection H as <- <- _. split; reflexivity.
+  - cbn [s_imuldiv deepcopy_obj self_through_own] in H.
+    destruct (s_owns self) eqn:O.
+    + destruct (as_mul_st true s (s_first self) (s_tree self)) as [[s1 sm]|e0] eqn:E.
+      2:{ injection H as <- <- _. split; reflexivity. }
+      rewrite s_imuldiv_tail_live, after_wrap_owns, O in H. discriminate H.
+    + rewrite as_mul_st_foreign in H.
+      destruct (add_has_ops (s_tree self)) eqn:Hops.
+      * injection H as <- <- _. split; reflexivity.
+      * rewrite s_imuldiv_tail_live, after_wrap_owns, O, (after_wrap_no_ops self Hops) in H.
+        injection H as <- <- _. split; reflexivity.
 Qed.
 
 Theorem inplace_refused_atomic : forall k s self other s' self' e,
-  s_owns self = true ->
   s_inplace VCode k s self other = (s', self', Err e) -> s' = s /\ self' = self.
 Proof.
-  intros [] s self other s' self' e Hown H; cbn [s_inplace] in H;
+  intros [] s self other s' self' e H; cbn [s_inplace] in H;
     eauto using iaddsub_refused_atomic, imuldiv_refused_atomic.
 Qed.
 
-(* every in-place dunder, every kind of right operand *)
+(* every in-place dunder, every kind of right operand, every left operand *)
 Theorem idunder_refused_atomic : forall k s self o s' self' e,
-  s_owns self = true ->
   s_idunder VCode k s self o = (s', self', Err e) -> s' = s /\ self' = self.
 Proof.
-  intros k s self o s' self' e Hown H. unfold s_idunder in H.
+  intros k s self o s' self' e H. unfold s_idunder in H.
   destruct (coerce_operand o) as [other|e0].
   - eapply inplace_refused_atomic; eassumption.
   - injection H as <- <- _. split; reflexivity.
 Qed.
 
+(* the code as found, left operand in its own store *)
+Theorem asfound_idunder_refused_atomic : forall k s self o s' self' e,
+  s_owns self = true ->
+  s_idunder VAsFound k s self o = (s', self', Err e) -> s' = s /\ self' = self.
+Proof.
+  intros k s self o s' self' e Hown H. unfold s_idunder in H.
+  destruct (coerce_operand o) as [other|e0].
+  - destruct k; cbn [s_inplace] in H; eauto using iaddsub_refused_atomic, asfound_imuldiv_refused_atomic.
+  - injection H as <- <- _. split; reflexivity.
+Qed.
+
 (* which calls are refused: exactly those whose right operand is not a number, is NaN, or is a spent expression - and
-   every call on a left operand that is itself spent *)
+   every call on a left operand that is itself spent; all of them with nothing written *)
 Definition refusal_of (o : soperand) : option exn :=
   match o with
   | ONotNumber => Some TypeError
@@ -153,16 +192,19 @@ Theorem idunder_refused_iff : forall k s self o,
   match refusal_of o with
   | Some e => s_idunder VCode k s self o = (s, self, Err e)
   | None => if s_owns self then exists s' self', s_idunder VCode k s self o = (s', self', Ok tt)
-            else exists s' self', s_idunder VCode k s self o = (s', self', Err ValueError)
+            else s_idunder VCode k s self o = (s, self, Err ValueError)
   end.
 Proof.
   intros k s self o.
   assert (L : forall x, if s_owns self then exists s' self', s_inplace VCode k s self (Live x) = (s', self', Ok tt)
-                        else exists s' self', s_inplace VCode k s self (Live x) = (s', self', Err ValueError)).
-  { intros x. destruct k; cbn [s_inplace s_imuldiv deepcopy_obj]; rewrite ?s_iaddsub_live;
-      try (destruct (s_owns self); eauto; fail);
-      destruct (as_mul_st s (s_first self) (s_tree self)) as [s1 sm]; rewrite s_imuldiv_tail_live, after_wrap_owns;
-      destruct (s_owns self); eauto. }
+                        else s_inplace VCode k s self (Live x) = (s, self, Err ValueError)).
+  { intros x. destruct (s_owns self) eqn:O.
+    - destruct (as_mul_st_own_ok s (s_first self) (s_tree self)) as (s1 & sm & E).
+      destruct k; cbn [s_inplace s_imuldiv deepcopy_obj self_through_own]; rewrite ?s_iaddsub_live, ?O; eauto;
+        rewrite E, s_imuldiv_tail_live, after_wrap_owns, O; eauto.
+    - destruct k; cbn [s_inplace s_imuldiv deepcopy_obj self_through_own]; rewrite ?s_iaddsub_live, ?O; try reflexivity;
+        rewrite as_mul_st_foreign; destruct (add_has_ops (s_tree self)) eqn:Hops; try reflexivity;
+        rewrite s_imuldiv_tail_live, after_wrap_owns, O, (after_wrap_no_ops self Hops); reflexivity. }
   destruct o as [| |neg t|[|x]]; cbn [refusal_of]; unfold s_idunder; cbn [coerce_operand];
     try reflexivity; try apply L.
   destruct k; reflexivity.
@@ -191,25 +233,27 @@ Proof.
 Qed.
 
 (* ---------------------------------------------------------------------------------------- *)
-(* the CODE's order is not atomic either when the LEFT operand is itself spent: its tree `1 + 2` now belongs to the
+(* the code AS FOUND is not atomic when the LEFT operand is itself spent: its tree `1 + 2` now belongs to the
    expression that received it, inside the document `A 1 + 2 U`.  `spent_self *= 3`: the operand is copied, _wrap_paren
    writes the parentheses into add_expr.token_store - the RECEIVER's document -, then the splice into self.token_store
    (self's own, empty store) raises ValueError.  The receiver's document prints `A (1 + 2) U`; no tree owns the
    parentheses.  (+= / -= never wrap self: iaddsub_refused_atomic covers the spent left operand.) *)
 Definition wf_spent_self : sref := SR 2 wf_self_tree false.
 
-Theorem spent_self_refuted :
+Theorem asfound_spent_self_refuted :
   attached wf_store wf_spent_self /\
   exists s',
-    s_idunder VCode OpMul wf_store wf_spent_self (OScalar false [51]) = (s', SR 3 wf_self_tree false, Err ValueError) /\
+    s_idunder VAsFound OpMul wf_store wf_spent_self (OScalar false [51]) = (s', SR 3 wf_self_tree false, Err ValueError) /\
     s' <> wf_store /\
     text s' = [65; 32; 40; 49; 32; 43; 32; 50; 41; 32; 85] /\                (* "A (1 + 2) U" *)
-    text wf_store = [65; 32; 49; 32; 43; 32; 50; 32; 85].                    (* "A 1 + 2 U"   *)
+    text wf_store = [65; 32; 49; 32; 43; 32; 50; 32; 85] /\                  (* "A 1 + 2 U"   *)
+    (* the repaired code on the same input: refused with nothing written *)
+    s_idunder VCode OpMul wf_store wf_spent_self (OScalar false [51]) = (wf_store, wf_spent_self, Err ValueError).
 Proof.
   split.
   - exists [TWs [65]; TWs [32]], [TWs [32]; TWs [85]]. split; reflexivity.
   - eexists. split; [vm_compute; reflexivity|].
-    split; [intros H; discriminate H|]. split; vm_compute; reflexivity.
+    split; [intros H; discriminate H|]. repeat split; vm_compute; reflexivity.
 Qed.
 
 (* ---------------------------------------------------------------------------------------- *)
@@ -231,15 +275,16 @@ Lemma s_imuldiv_pure : forall v a b c x div,
    SR (length a) (AMul (MOp (as_mul_expr b) SP div SP (as_atom_expr (body x)))) true, Ok tt).
 Proof.
   intros v a b c x div.
-  assert (E : (let (s1, sm) := as_mul_st (a ++ re b ++ c) (length a) b in
-               s_imuldiv_tail s1 (after_wrap (SR (length a) b true)) (length a) sm (re (body x)) (body x) div) =
+  assert (E : (match as_mul_st true (a ++ re b ++ c) (length a) b with
+               | Err e => (a ++ re b ++ c, SR (length a) b true, Err e)
+               | Ok (s1, sm) => s_imuldiv_tail s1 (after_wrap (SR (length a) b true)) (length a) sm (re (body x)) (body x) div
+               end) =
               (a ++ re (AMul (MOp (as_mul_expr b) SP div SP (as_atom_expr (body x)))) ++ c,
                SR (length a) (AMul (MOp (as_mul_expr b) SP div SP (as_atom_expr (body x)))) true, Ok tt)).
   { rewrite as_mul_st_spec, s_imuldiv_tail_live, after_wrap_owns. cbn [s_first s_owns].
     rewrite app_assoc, insert_at_app by (rewrite app_length; reflexivity).
     f_equal. f_equal. cbn [re rm ws SP app]. rewrite <- !app_assoc. reflexivity. }
-  destruct v; cbn [s_imuldiv deepcopy_obj s_first s_tree]; [exact E|].
-  destruct (as_mul_st (a ++ re b ++ c) (length a) b) as [s1 sm]. exact E.
+  destruct v; cbn [s_imuldiv deepcopy_obj s_first s_tree s_owns self_through_own]; exact E.
 Qed.
 
 Theorem inplace_agrees_pure : forall v k self x r,
